@@ -502,7 +502,11 @@ impl<'a> ByteReader for ReadAdapter<'a> {
         // this will return an error if we hit EOF first
         self.buffer_at_least(len)?;
 
-        Ok(&self.buffer()[0..len])
+        // Consume the bytes we are about to return
+        let start = self.pos;
+        self.pos += len;
+
+        Ok(&self.buf[start..self.pos])
     }
 
     #[inline]
